@@ -10,7 +10,7 @@ CHECKS["C01"] = dict(
     technique="model-based stateful property testing (rapid) of the subscription trie against a reference pair set + reference matcher; randomized concurrent stress leg",
     level_text="Generated subscribe/unsubscribe/lookup histories in both matching modes are checked step by step against an independent model "
                "(exact recipient set incl. one-member-per-share-group, Count, stored pairs, no empty reachable node, full reclamation to the root). "
-               "Exploration: thousands (quick) to hundreds of thousands (thorough) of shrinkable histories; absence of violations is not proven.",
+               "Exploration: thousands (quick) to hundreds of thousands (thorough) of shrinkable histories; absence of violations is not proven. The generator works from a per-history pool of nested / permuted filters with drawn operation weights and 'remove everything and go on' steps, so that emptied branches are re-populated within one history; a death of the test process inside emitter code (e.g. a concurrent map access) is reported as a violation.",
     level_note="Trusted: the 30-line reference matcher written from the statement, security.ParseChannel+NewSsid for ssid construction, the VerifDump accessor. "
                "Concurrent leg samples Go-scheduler interleavings only.",
     rule="rapid-generated histories (<=60 ops) of subscribe/unsubscribe/lookup on message.Trie in emitter and mqtt mode, "
@@ -35,7 +35,7 @@ CHECKS["C02"] = dict(
     level_text="Histories of <=40 connect/subscribe/unsubscribe/publish/link/reconnect requests from 1-4 clients (valid and refused keys, malformed "
                "topics, me=0, QoS 0/1, link shortcuts with auto-subscribe) run through the real accept path; after every request every client's "
                "received packets are compared with the model (exact recipient set, one copy, topic without key, payload unchanged, error reply with "
-               "request id and unchanged subscription count for refused requests, empty index after all clients closed).",
+               "request id and unchanged subscription count for refused requests, empty index after all clients closed). A second leg runs single-connection sessions over a scripted broker-side socket on which exactly one write fails (transient failure): the connection either ends or is still sent every other packet it is owed.",
     level_note="Trusted: paho packets codec on the client side, net.Pipe transport, protocol barriers (PUBACK/PINGRESP/close signal), reference matcher. "
                "Storage and cluster disabled/quiescent; emitter matcher mode only.",
     rule="rapid-generated histories; non-trivial = history in which a publish is delivered to a connection holding >=2 filters after >=1 effective "
@@ -92,7 +92,7 @@ CHECKS["C04"] = dict(
     level_text="2-4 replicas (volatile and durable mixed) apply generated local add/remove operations at drawn clocks (ties, backwards clocks) and receive "
                "generated payloads - single operations, full snapshots, deltas returned by earlier merges - with and without Encode/DecodeState hops, with "
                "duplication and arbitrary order; after every step every replica's Get/Has/Range/Count/Subscriptions must equal its model, and after a final "
-               "all-to-all snapshot exchange in a drawn order all replicas must be identical.",
+               "all-to-all snapshot exchange in a drawn order all replicas must be identical. A concurrency leg applies local operations, gossip merges and reads to one replica at the same time - the harness lets chosen merges run exactly while a local operation sits between its read and its write (clock hook) - and requires the join of all updates at the end.",
     level_note="Trusted: the lattice model (20 lines), crdt.Now clock injection, the VerifSubset accessor. Payload value bytes are not part of the oracle "
                "(the statement speaks of entries and times). Durable snapshots are exact only below the 50 000-entry reservoir.",
     rule="rapid-generated histories (<=50 steps, 7 events of 3 types, clocks 1..8); non-trivial = >=3 replicas touched, >=1 tie or backwards clock and >=1 "
@@ -110,7 +110,7 @@ CHECKS["C13"] = dict(
                "changed the receiver, be nil exactly when nothing changed, and leave the receiver at the pointwise maximum (volatile and durable receivers, "
                "ops/snapshots/relayed deltas, with and without encode hops). (b) 1-6 payloads (ops, deltas, live full states) are queued on 1-3 links of the "
                "transcribed sender, one object possibly on several links; the decoded join of what is put on the wire must dominate the join of what was queued. "
-               "Non-coalescing schedules are asserted strictly; failures with >=1 pending.Merge(new) call match the listed finding.",
+               "Non-coalescing schedules are asserted strictly; failures with >=1 pending.Merge(new) call match the listed finding. (c) merges of the same payloads arriving over several links at once, racing local operations: every (entry, time) is handed on by at most one merge, and by exactly one if only gossip carried it.",
     level_note="Trusted: the lattice model, the 40-line transcription of mesh gossipSender.Send/Broadcast/pick (vkit/gsender.go). For (b) the implementation "
                "is known to violate the property whenever payloads coalesce (listed finding), so (b) separates 'fails as listed' from 'fails otherwise' only.",
     rule="(a) non-trivial = history containing a merge whose payload entry has one changed and one unchanged time field; (b) non-trivial = >=2 payloads queued. "
@@ -147,7 +147,7 @@ CHECKS["C06"] = dict(
     level_text="Stores of 0-40 messages (two contracts whose key prefixes collide by construction plus a third, channels of depth 1-4, a 6-second band so many "
                "messages share a second, expired and live TTLs, payloads up to 60 KiB against the 64 KiB cap, retained TTL) and 1-6 queries each (literal first "
                "level, '+' elsewhere, windows cutting the band, limits 0..2^62, continuation from the oldest id to exhaustion or from an arbitrary returned id): "
-               "the returned multiset, its order, the fields of every message, page disjointness and the union of pages are compared with the reference.",
+               "the returned multiset, its order, the fields of every message, page disjointness and the union of pages are compared with the reference. Further legs ask through the other observation point, emitter/history/ requests to a broker with an in-memory and a disk store (options last/from/until, paging with startFromID, refusals), feed undecodable replies of other cluster members into the two-node survey, and continue with ids obtained from a wider query than the window in force.",
     level_note="Trusted: the 40-line reference (key order = time desc then creation order desc, cumulative payload+id+channel <= 65536), message.New/ID.SetTime for "
                "construction, wall clock only with margins (messages are either expired by >=500 s or live for >=1 h). The main legs use a nil surveyor; the two-node leg plays the cluster surveyor itself (request handed to the peer store's OnSurvey). "
                "Negative limits are out of the property's domain (C09 covers them).",
@@ -170,7 +170,7 @@ CHECKS["C03"] = dict(
                "(2) generated tuples (license version 1-3, own/second/unknown contract, signature, master id, permission mask, needed permission, expiry, ban "
                "state, undecryptable key strings, target, request) through Service.Authorize: allowed iff every conjunct holds, each conjunct is seen deciding; "
                "(3) for all 128 permission masks x 3 license versions the operations subscribe/publish/history/presence/key-extension through a connection "
-               "need exactly read/write/load/presence/extend, and a second contract's key never reaches the first contract's subscribers.",
+               "need exactly read/write/load/presence/extend, and a second contract's key never reaches the first contract's subscribers. Each decision is asked twice with disturbances in between (the key is extended for a private link, a powerful unrelated key is authorized): the answer must not change; contracts served by an HTTP provider whose first lookup fails must be accepted from the next lookup on; a concurrent leg has 8 goroutines authorizing their own keys at once against the same reference.",
     level_note="Trusted: the 25-line reference 'covers' (requests ending in '#' against exact targets are unspecified and excluded, counted), keys built field by field "
                "and encrypted with the license cipher, a delegating contract provider over emitter's own SingleContractProviders. The listed finding (targets "
                "whose last level is '+') is excluded from the under-permission direction only; over-permission is asserted everywhere.",
@@ -193,7 +193,7 @@ CHECKS["C11"] = dict(
                "cleared, for extension), the parent's contract/signature/master, target bytes equal to a recomputation for exactly the requested channel "
                "(<channel><connection id>/ for extension, #/ moved behind the id), expiry = request time + ttl (+-2 s) or none, and must authorize the intended "
                "channel but neither sibling nor parent; non-master / expired / foreign parents must be refused; every mask with the extend bit is refused for "
-               "SUBSCRIBE and PUBLISH.",
+               "SUBSCRIBE and PUBLISH. A history leg mints, extends (from several connections), uses, probes and damages keys in any order on one broker and compares every step with a per-key model (a key's rights never change through requests); a concurrency leg issues keys from 8 goroutines at once, mixed with refused requests.",
     level_note="Trusted: hash.OfString (murmur) for the target hash, the 15-line bit-path recomputation, keys built field by field. A requested expiry before the key "
                "format's epoch (2010-01-01) is not representable: such a key must already be expired with the earliest representable expiry.",
     rule="rapid-generated requests; non-trivial = a key was issued from a master, or the request asks for permissions the parent lacks, or a refusal caused by a "
@@ -211,7 +211,7 @@ CHECKS["C12"] = dict(
     level_text="Issued keys over (license version 1-3, permission mask, target shape, expiry none/future/past, salt) x modifications: 1-3 bit flips of the 24 raw "
                "bytes (all 192 single flips enumerated for 4 keys per version), XOR masks on 1-4 bytes, base64 character substitutions, bytes outside the alphabet, "
                "3-byte and 8-byte block swaps/duplications, truncation/extension, 8-byte block splices from a second issued key. granted(k') must be a subset of "
-               "granted(k) (of the union for splices) on 12 channels x 6 permissions + minting.",
+               "granted(k) (of the union for splices) on 12 channels x 6 permissions + minting. A concurrency leg presents modified keys while other clients are authorized with powerful keys at the same moment: the modified key must grant exactly what it grants when presented alone.",
     level_note="Trusted: keys built field by field, the probe set. A 2^-32 forgery cannot be found by sampling; this check finds structural malleability only. "
                "Listed findings: v2/v3 ciphers are unauthenticated stream ciphers (bit flips beyond the salt bytes change permissions/target/expiry at will).",
     rule="rapid-generated (key, modification) pairs + enumerated single-bit flips; non-trivial = the modified string is still 32 valid characters; distinct = distinct case value.",
@@ -230,7 +230,7 @@ CHECKS["C19"] = dict(
                "created later sort bytewise before earlier ones within and across seconds; 8 goroutines x 10^4 ids are pairwise distinct; (c) Frame.Split for all "
                "bounds: head++tail = frame, head below the bound and maximal; iterated as the peer does it re-assembles the frame; (d) 1-8 goroutines hand "
                "200-3000 numbered messages each to a Peer whose 5 ms ticker is the only flusher: the transport receives each exactly once, per-sender order kept, "
-               "nothing once the peer is inactive.",
+               "nothing once the peer is inactive. Decoded frames / messages and encoded bytes are re-checked after other data went through the codec (results may not alias pooled buffers), and a concurrent leg runs the codec from 8 goroutines.",
     level_note="Trusted: the recording mesh.Gossip stub, VerifNewPeer (= newPeer on a stub swarm). Leg (d) samples Go-scheduler interleavings; no shrinking. Single "
                "messages at or above the split bound cannot occur in the broker (64 KiB packet cap vs 10 MiB bound) and are excluded (counted).",
     rule="rapid cases + stress rounds; non-trivial = frame of >=2 messages or a large payload/ttl, >=2 time steps, a frame that splits into >=2 chunks, a peer round with "
@@ -252,7 +252,7 @@ CHECKS["C07"] = dict(
                "subscribes and re-subscribes with keys with/without load permission, last absent/0/1/2/3/5/10^6/2^40, windows around now / far past / far future / "
                "one-sided / out-of-range. Checked: the packets read before each SUBACK are exactly the last N stored matching messages inside the window (none "
                "without load permission), nothing but live publishes afterwards, live fan-out unchanged, and at the end the store holds exactly the model "
-               "(once each, publisher's channel and contract, requested ttl, retain = configured retention).",
+               "(once each, publisher's channel and contract, requested ttl, retain = configured retention). A concurrency leg has several clients publishing stored messages while further goroutines write to the same store; afterwards every channel's history holds exactly its publisher's messages, once each.",
     level_note="Trusted: paho client codec, barriers, reference matcher, a per-case namespace level so one broker/store serves many cases. Messages of one history "
                "share a wall-clock second, so replay is compared as a multiset. Excluded: will topics with a ttl option and ttl >= 2^32-1 (statement ambiguous / wire type).",
     rule="rapid-generated histories; non-trivial = a subscribe whose expected replay is non-empty and a strict subset of the stored messages; distinct = distinct case value.",
@@ -271,7 +271,7 @@ CHECKS["C08"] = dict(
                "and an oversize length. After the close barrier: the index dump equals the bystanders' entries exactly, the connection counter is back, the will "
                "watcher got the will exactly once iff CONNECT was complete and the will key may publish, the presence watcher got one unsubscribe per "
                "subscription still held (and the subscribe/unsubscribe notifications of the processed requests in order, with the username), bystanders got "
-               "exactly the victim's processed publishes, and a later publish reaches the bystander once.",
+               "exactly the victim's processed publishes, and a later publish reaches the bystander once. A second enumeration leg injects write faults: the victim's whole request stream is readable but the broker's k-th write to it fails (from then on, or only once), for every k of the fault-free run; sessions contain blocks of filters whose ssids share the per-connection counter hash (two-, three- and four-way).",
     level_note="Trusted: paho codec, the close signal of the wrapped pipe (Conn.Close ends with socket.Close), the presence-queue sentinel barrier, waiting for the "
                "acknowledgement of every complete packet before ending (so the processed prefix is known). Process kill / internal panics outside the decoder "
                "are not injected.",
@@ -291,7 +291,7 @@ CHECKS["C18"] = dict(
                "a/b/, x/. After every operation both a permanent watcher and the toggling watcher must have received exactly the expected notifications "
                "(one subscribe per new subscription on or below a watched channel, one unsubscribe when it ends, per-connection order, usernames, none after "
                "cancel), and every status response must list exactly the connections the reference matcher says would receive a publish, with usernames. "
-               "A second leg saturates the 100-slot presence queue behind a non-reading watcher and checks that order is preserved.",
+               "A second leg saturates the 100-slot presence queue behind a non-reading watcher and checks that order is preserved. The channel alphabet contains two- and three-way groups of channels whose ssids share the per-connection counter hash.",
     level_note="Trusted: paho codec, ids learned from emitter/me, the sentinel barrier through the presence queue (single FIFO goroutine) observed by a permanent "
                "watcher - which makes 'none after cancel' conclusive. Cluster survey answers no peers.",
     rule="rapid-generated histories; non-trivial = >=2 transitions, a connection going away and the toggling watcher notified at least once; distinct = distinct case value.",
@@ -306,7 +306,7 @@ CHECKS["C14"] = dict(
     level_text="Histories of <=30 operations on two brokers and two keys: keyban requests (ban/unban with the master key) at either broker, uses of the key "
                "(publish or subscribe) at either broker interleaved everywhere, delivery of everything one broker has broadcast to the other (the other may or "
                "may not have looked the key up before), and restarts of a broker on its state directory after any prefix. After an acknowledged ban every use on "
-               "that broker is refused, after an acknowledged unban accepted, a restart preserves the state, the other broker follows once the gossip is merged.",
+               "that broker is refused, after an acknowledged unban accepted, a restart preserves the state, the other broker follows once the gossip is merged. A concurrency leg toggles the ban (requests and merged gossip) while six goroutines keep presenting the key: the next use after each acknowledgement must see the new status.",
     level_note="Trusted: paho codec, a capturing mesh.Gossip stub (payload bytes taken at broadcast time, merged through the real OnGossipBroadcast), the real "
                "wall clock as the LWW clock (operations are far more than a nanosecond apart). Restart = clean Close + NewService in the main leg; the 'kill' leg runs the broker in a child process and SIGKILLs it after an "
                "acknowledgement (process death only, no power-loss model).",
@@ -381,7 +381,7 @@ CHECKS["C05"] = dict(
                "for every broker and channel the remote subscribers in its index must equal the brokers with a live matching local subscriber; a QoS-1 probe "
                "publish must reach every matching client cluster-wide once, with exactly one forwarded frame per other broker that has a subscriber and none to "
                "the others. Classes A and A' are asserted strictly, as are 'a full-state exchange with nothing in flight changes nothing' and 'no route to a "
-               "garbage-collected peer is left'; other failures in B, C, D must match a listed finding.",
+               "garbage-collected peer is left'; other failures in B, C, D must match a listed finding. Class J adds a broker that joins late (first full-state exchange carries several subscriptions and tombstones at once); a first-contact leg delivers the first two updates about an unknown broker over two links concurrently.",
     level_note="Trusted: the transcription of mesh's gossipSender and gossipChannel relay logic (vkit/gsender.go, vkit/simnet.go, ~250 lines; full-mesh and line "
                "topologies), which replaces the real mesh router, TCP and topology gossip; crdt.Now is a harness counter. 'Once quiesced' is checked, not "
                "'eventually quiesces'. Outside A/A' the implementation is known to violate the property (listed findings), so there the check separates "
